@@ -116,6 +116,7 @@ func runC18(c *Ctx) {
 	}
 
 	ties := runLint(c)
+	runThreadgroupScripted(c, &cases)
 
 	// phased scenarios: every per-subnet limit in {-1,0,1,2,64} x per-peer limit in {1,2,3,64}
 	nPhased := c.Scale(150, 1500)
@@ -153,7 +154,7 @@ func runC18(c *Ctx) {
 
 	t2 := time.Now()
 	nStress := c.Scale(20, 200)
-	for i := 0; i < nStress && !giveUp("stress"); i++ {
+	for i := 0; i < nStress && !giveUp("stress") && failedRuns["threadgroup"] == 0; i++ {
 		cfg := bedConfig{
 			MaxSubnet: subnetLimits[i%len(subnetLimits)],
 			MaxRPC:    []int{1, 2, 4}[i%3],
@@ -164,7 +165,7 @@ func runC18(c *Ctx) {
 	res.Notes = append(res.Notes, fmt.Sprintf("stress: %d runs in %.1fs", nStress, time.Since(t2).Seconds()))
 
 	tc := time.Now()
-	for i := 0; i < c.Scale(32, 320) && !giveUp("close-while-connecting"); i++ {
+	for i := 0; i < c.Scale(32, 320) && !giveUp("close-while-connecting") && failedRuns["threadgroup"] == 0; i++ {
 		closeWhileConnecting(c, c.R.U64(), i)
 	}
 	res.Notes = append(res.Notes, fmt.Sprintf("close while connecting: %.1fs", time.Since(tc).Seconds()))
